@@ -7,6 +7,8 @@ import warnings
 import subprocess
 import traceback
 
+from .. import _verif
+
 try:
     import psutil
 except ImportError:
@@ -35,6 +37,8 @@ def _kill_process_tree_with_psutil(process):
         descendants = psutil.Process(process.pid).children(recursive=True)
     except psutil.NoSuchProcess:
         return
+    if _verif.ENABLED:
+        _verif.point("kill_tree.listed", descendants=descendants)
 
     # Kill the descendants in reverse order to avoid killing the parents before
     # the descendant in cases where there are more processes nested.
